@@ -818,7 +818,7 @@ pub fn handle_xpending(storage: &Arc<StorageEngine>, db: usize, parts: &[RespFra
             .map(|(name, count)| {
                 RespFrame::Array(Some(vec![
                     RespFrame::from_string(name),
-                    RespFrame::Integer(count as i64),
+                    RespFrame::from_string(count.to_string()),
                 ]))
             })
             .collect();
